@@ -232,7 +232,8 @@ fn case_forged(ctx: &mut Ctx, rep: &mut Report, rng: &mut Rng, l: &Seq) {
     let c = lt.compare(&proof);
     let (vl, _) = proof.verify_leaves(&leaves);
     // oracle: `contains` for any proof only if claimed root is root of local prefix of claimed length
-    if let Ok(Comparison::Contains(_)) = &c {
+    // (only for head-shaped proofs: a proof of another position claims just that leaf)
+    if let (Ok(Comparison::Contains(_)), true) = (&c, idx + 1 == len) {
         let ok = len >= 1 && len <= l.len() && tree(&l[..len]).root().map(|h| h.0) == Some(root);
         if !ok {
             rep.spec_fail(
